@@ -335,23 +335,6 @@ def board_rows(chk, ctx, rule) -> None:
            'a row contributes its card for the board only if it has one for it (index < len(row)); shared rows are counted from 0')
 
 
-def showdown_offer_flag(chk, ctx) -> None:
-    fi = ctx.sfi('_begin_showdown')
-    loops = [n for n in walk_no_nested(fi.node) if isinstance(n, ast.For) and 'board_dealing_count' in ast.unparse(n)]
-    ok = False
-    if len(loops) == 1:
-        sets_true = [s for x in ast.walk(loops[0]) for s in ([x] if isinstance(x, ast.Assign) else []) if isinstance(s.value, ast.Constant) and s.value.value is True]
-        if len(sets_true) == 1 and isinstance(sets_true[0].targets[0], ast.Name):
-            flag = sets_true[0].targets[0].id
-            inits = [n for n in walk_no_nested(fi.node) if isinstance(n, ast.Assign) and isinstance(n.targets[0], ast.Name) and n.targets[0].id == flag
-                     and isinstance(n.value, ast.Constant) and n.value.value is False]
-            used = [n for n in walk_no_nested(fi.node) if isinstance(n, ast.If) and T.cond(n.test) == T.truthy(('name', flag))]
-            ok = len(inits) == 1 and len(used) == 1
-    chk.ob('C14.offer', 'State._begin_showdown:flag', ok, fi.loc,
-           '"community cards are still to come" starts false, becomes true only inside the scan of the later streets, and alone decides the offer')
-
-
-# ----------------------------------------------------------------------- C12
 def showing_components(chk, ctx) -> None:
     fi = ctx.sfi('verify_hole_cards_showing_or_mucking')
     isbool = T.spec('isinstance(status_or_hole_cards, bool)', boolean=True)
@@ -361,7 +344,7 @@ def showing_components(chk, ctx) -> None:
     for p in ctx.paths(fi):
         if not p.returned:
             continue
-        cs = [unversion(c) for c in p.conds()]
+        cs = [unversion(c) for c in p.conds(flat=True)]
         explicit = T.mk_not(isbool) in cs and T.mk_not(none) in cs
         if explicit:
             continue
@@ -387,7 +370,7 @@ def showing_components(chk, ctx) -> None:
     for p in ctx.paths(fi):
         if not p.returned:
             continue
-        cs = [unversion(c) for c in p.conds()]
+        cs = [unversion(c) for c in p.conds(flat=True)]
         if not (T.mk_not(isbool) in cs and T.mk_not(none) in cs) or ('const', False) in cs:
             continue          # (a constant-false assumption: the path is infeasible)
         def never_none(t):
